@@ -214,18 +214,27 @@ def setJ (g : G) (j : Joiner) : G := { g with joiner := some j }
 def countsAsCompleted (p : Policy) (o : Outcome) : Bool :=
   !(p == .object && !failed o && o == .none)
 
+/-- the recorded outcome of task `t` -/
+def G.outcomeOf (g : G) (t : Nat) : Outcome := ((g.find t).map (·.outcome)).getD .none
+
+/-- the join loop pops `t` off the done queue and updates `completed` -/
+def G.popT (g : G) (t : Nat) (rest : List Nat) : G :=
+  { g with doneq := rest, popped := g.popped ++ [t], joinPopped := g.joinPopped ++ [t],
+           completed := if g.completed.isNone && countsAsCompleted g.wait (g.outcomeOf t)
+                        then some t else g.completed }
+
+/-- the test at the bottom of the `join()` loop, after `t` was popped -/
+def G.stopAfter (g : G) (t : Nat) (rest : List Nat) : Bool :=
+  failed (g.outcomeOf t) || g.wait == .any ||
+    (g.wait == .object && (g.popT t rest).completed.isSome)
+
 /-- the tail of `next_done()` once a permit is held, and the body of the `join()` loop -/
 def G.joinerPop (g : G) (j : Joiner) : G × List Obs :=
   match g.doneq with
   | [] => (setJ g { j with phase := .fin, hasPermit := false }, [])
   | t :: rest =>
-    let oc := ((g.find t).map (·.outcome)).getD .none
-    let comp := if g.completed.isNone && countsAsCompleted g.wait oc then some t
-                else g.completed
-    let g3 := { g with doneq := rest, popped := g.popped ++ [t],
-                       joinPopped := g.joinPopped ++ [t], completed := comp }
-    let stop := failed oc || g3.wait == .any || (g3.wait == .object && comp.isSome)
-    (setJ g3 { j with phase := if stop then .fin else .next, hasPermit := false }, [])
+    (setJ (g.popT t rest)
+      { j with phase := if g.stopAfter t rest then .fin else .next, hasPermit := false }, [])
 
 /-- one step of the joiner's algorithm; `none` = it is waiting (quiescent) or has exited -/
 def G.joinerStep (g : G) (perm : List Nat) : Option (G × List Obs) :=
